@@ -88,7 +88,13 @@ def parseCmd (j : Json) : Except String Cmd := do
         | _ => throw "bad param"
       pure (.beginFn (← getStr j "name") params)
   | "endFn" => pure (.endFn (← getNat j "ret") (← getSTy j "retAnn"))
-  | "call" => pure (.call (← getNat j "f") (← getNats j "args"))
+  | "call" => do
+      let kws ← match j.getObjValAs? (Array Json) "kw" with
+        | .ok ks => ks.toList.mapM fun f => match f with
+            | .arr #[.str n, r] => do pure (n, ← (fromJson? r : Except String Nat))
+            | _ => throw "bad keyword argument"
+        | .error _ => pure []
+      pure (.call (← getNat j "f") (← getNats j "args") kws)
   | s => throw s!"unknown command {s}"
 
 def errStr : Err → String
